@@ -48,7 +48,7 @@ type concretizer struct {
 }
 
 func newConcretizer(o *Obligation) *concretizer {
-	return &concretizer{o: o, timeout: 20000}
+	return &concretizer{o: o, timeout: int(20000 * loadFactor())}
 }
 
 // baseScript is rebuilt for every query: read-back may declare further symbols (heap fields
